@@ -12,6 +12,15 @@ import os
 import vlib
 
 PROPS = "Properties_C11"
+# leaf functions / constants of path.c are re-translated from the C source on every run (tools/translate_leaf.py ->
+# coq/gen/Leaf.v, Constants.v) and re-proved equal to the model's (coq/Properties_leaf_path.v)
+EXTRA_PROPS = ["Properties_leaf_path"]
+
+
+def REGEN(ctx):
+    vlib.regen_leaf(ctx, ["Path"])
+
+
 RULE = ("every string over {'/','.','a'} up to length 9 (quick) / 12 (thorough), every sequence of up to 6 (quick) / 8 "
         "(thorough) elements from {'..','.','a','...'} with 0-2 leading and 0-1 trailing separators, plus random longer strings "
         "built from an element pool ('.', '..', '...', 'a..', '..a', names, high bytes) with random separator "
